@@ -121,6 +121,148 @@ void pair_case(vf::Case& c)
     if (vf::want_sample("tp-pair")) { vf::sample("tp-pair", "%s: %llu counts", subj, (unsigned long long)n); }
 }
 
+// ---- time_point (op) duration across the pair matrix: tp<F> + T, T + tp<F>, tp<F> - T, tp<F> - tp<T>  (value + declared type).
+// Guarded by presence: on a tree without the non-member operators the probe unit C12_ops_tp reports the absence.
+template <typename P, typename Q, typename D>
+constexpr bool has_tp_ops = requires(P p, Q q, D d) {
+    (p + d).time_since_epoch();
+    (d + p).time_since_epoch();
+    (p - d).time_since_epoch();
+    (p - q).count();
+};
+template <typename F, typename T>
+void arith_case(vf::Case& c)
+{
+    using ETF = ec::time_point<ec::system_clock, typename F::E>;
+    using ETT = ec::time_point<ec::system_clock, typename T::E>;
+    using STF = sc::time_point<sc::system_clock, typename F::S>;
+    using STT = sc::time_point<sc::system_clock, typename T::S>;
+    using ECD = etl::common_type_t<typename F::E, typename T::E>;
+    using SCD = std::common_type_t<typename F::S, typename T::S>;
+    using CR  = typename SCD::rep;
+    char subj[96];
+    std::snprintf(subj, sizeof subj, "time_point<%lld/%lld> (op) duration<%lld/%lld>", F::n, F::d, T::n, T::d);
+    std::uint64_t const h0 = vf::fnv(subj);
+    if constexpr (has_tp_ops<ETF, ETT, typename T::E>) {
+        vf::crumb(subj, "decltype(tp+d), (d+tp), (tp-d), (tp-tp)", "type-level", "compile-time boolean");
+        vf::cover("type-level", h0 + 1, true);
+        bool const et = std::is_same_v<decltype(ETF{} + typename T::E{}), ec::time_point<ec::system_clock, ECD>> && std::is_same_v<decltype(typename T::E{} + ETF{}), ec::time_point<ec::system_clock, ECD>>
+                     && std::is_same_v<decltype(ETF{} - typename T::E{}), ec::time_point<ec::system_clock, ECD>> && std::is_same_v<decltype(ETF{} - ETT{}), ECD>;
+        bool const st = std::is_same_v<decltype(STF{} + typename T::S{}), sc::time_point<sc::system_clock, SCD>> && std::is_same_v<decltype(typename T::S{} + STF{}), sc::time_point<sc::system_clock, SCD>>
+                     && std::is_same_v<decltype(STF{} - typename T::S{}), sc::time_point<sc::system_clock, SCD>> && std::is_same_v<decltype(STF{} - STT{}), SCD>;
+        vf::eq_bool("value", et, st);
+        // factors into the common type
+        i128 const gn = gcd128(F::n, T::n), ld = (i128)F::d / gcd128(F::d, T::d) * T::d;
+        i128 const f1 = ((i128)F::n / gn) * (ld / F::d), f2 = ((i128)T::n / gn) * (ld / T::d);
+        auto fits = [](i128 v) { return v >= (i128)std::numeric_limits<CR>::min() && v <= (i128)std::numeric_limits<CR>::max(); };
+        std::vector<long long> as, bs;
+        int const N = c.tier == vf::Tier::thorough ? 120 : 40;
+        for (int k = -N; k <= N; ++k) { as.push_back(k); }
+        long long const big[] = {2147483647ll, -2147483647ll - 1, 1ll << 40, -(1ll << 40)};
+        for (long long x : big) { as.push_back(x); }
+        for (int i = 0; i < 16; ++i) { as.push_back(c.rng.range(-(1ll << 33), 1ll << 33)); }
+        for (int k = -12; k <= 12; ++k) { bs.push_back(k); }
+        bs.push_back(1000003);
+        bs.push_back(-86399);
+        for (int i = 0; i < 4; ++i) { bs.push_back(c.rng.range(-(1ll << 33), 1ll << 33)); }
+        std::uint64_t n = 0;
+        for (long long a : as) {
+            for (long long b : bs) {
+                using FR = typename F::rep;
+                using TR = typename T::rep;
+                if (a > (long long)std::numeric_limits<FR>::max() || a < (long long)std::numeric_limits<FR>::min() || b > (long long)std::numeric_limits<TR>::max()
+                    || b < (long long)std::numeric_limits<TR>::min()) {
+                    continue;
+                }
+                i128 const A = (i128)a * f1, B = (i128)b * f2;
+                if (!fits(A) || !fits(B) || !fits(A + B) || !fits(A - B)) { continue; }
+                char sit[96];
+                std::snprintf(sit, sizeof sit, "tp-%s,d-%s", a < 0 ? "neg" : (a == 0 ? "zero" : "pos"), b < 0 ? "neg" : (b == 0 ? "zero" : "pos"));
+                STF const sp{typename F::S{(FR)a}};
+                ETF const ep{typename F::E{(FR)a}};
+                typename T::S const sd{(TR)b};
+                typename T::E const ed{(TR)b};
+                long long const s1 = (sp + sd).time_since_epoch().count(), s2 = (sd + sp).time_since_epoch().count(), s3 = (sp - sd).time_since_epoch().count(),
+                                s4 = (sp - STT{sd}).count();
+                if ((i128)s1 != A + B || (i128)s2 != A + B || (i128)s3 != A - B || (i128)s4 != A - B) {
+                    vf::crumb("oracle", "std-vs-exact", "tp arithmetic", "%s a=%lld b=%lld", subj, a, b);
+                    vf::diverge("oracles-disagree", vf::to_s(s1), vf::to_s((long long)(A + B)));
+                }
+                vf::crumb(subj, "tp+d", sit, "tp=%lld d=%lld", a, b);
+                vf::eq_int("count", (ep + ed).time_since_epoch().count(), s1);
+                vf::crumb(subj, "d+tp", sit, "tp=%lld d=%lld", a, b);
+                vf::eq_int("count", (ed + ep).time_since_epoch().count(), s2);
+                vf::crumb(subj, "tp-d", sit, "tp=%lld d=%lld", a, b);
+                vf::eq_int("count", (ep - ed).time_since_epoch().count(), s3);
+                vf::crumb(subj, "tp-tp", sit, "tp=%lld d=%lld", a, b);
+                vf::eq_int("count", (ep - ETT{ed}).count(), s4);
+                ++n;
+            }
+        }
+        vf::cover_bulk("tp+d, d+tp, tp-d, tp-tp", 4 * n, h0, n);
+        if (vf::want_sample("tp-arith")) { vf::sample("tp-arith", "%s: %llu (tp, d) pairs x 4 operators", subj, (unsigned long long)n); }
+    } else {
+        vf::cover("tp-arith: operators not declared (see unit C12_ops_tp)", h0, true);
+    }
+}
+
+// ---- sys_days +/- days: must stay a sys_days.  Without operator+(time_point, duration) the expression still compiles - through
+// weekday's implicit constructor from sys_days - and yields a weekday, so this is written to compile either way.
+template <typename X> long long day_number(X const& x)
+{
+    if constexpr (requires { x.time_since_epoch(); }) {
+        return x.time_since_epoch().count();
+    } else if constexpr (requires { x.c_encoding(); }) {
+        return 1000000000ll + x.c_encoding(); // not a time_point at all
+    } else {
+        return x.count();
+    }
+}
+template <typename X> void civil_of(X const& sum, sc::year_month_day const& sy)
+{
+    if constexpr (std::is_same_v<X, ec::sys_days>) { // (a weekday cannot be turned into a date; the type fact and day-number already fired)
+        ec::year_month_day const ey{sum};
+        vf::eq_int("year", int(ey.year()), int(sy.year()));
+        vf::eq_int("month", unsigned(ey.month()), unsigned(sy.month()));
+        vf::eq_int("day", unsigned(ey.day()), unsigned(sy.day()));
+    }
+}
+void sys_days_case(vf::Case& c)
+{
+    char const* subj = "sys_days (op) days";
+    vf::crumb(subj, "decltype(sys_days+days) is sys_days", "type-level", "compile-time boolean");
+    vf::cover("type-level", 11, true);
+    vf::eq_bool("value", std::is_same_v<decltype(ec::sys_days{} + ec::days{}), ec::sys_days>, std::is_same_v<decltype(sc::sys_days{} + sc::days{}), sc::sys_days>);
+    vf::crumb(subj, "decltype(days+sys_days) is sys_days", "type-level", "compile-time boolean");
+    vf::eq_bool("value", std::is_same_v<decltype(ec::days{} + ec::sys_days{}), ec::sys_days>, std::is_same_v<decltype(sc::days{} + sc::sys_days{}), sc::sys_days>);
+    vf::crumb(subj, "decltype(sys_days-days) is sys_days", "type-level", "compile-time boolean");
+    vf::eq_bool("value", std::is_same_v<decltype(ec::sys_days{} - ec::days{}), ec::sys_days>, std::is_same_v<decltype(sc::sys_days{} - sc::days{}), sc::sys_days>);
+    vf::crumb(subj, "decltype(sys_days-sys_days) is days", "type-level", "compile-time boolean");
+    vf::eq_bool("value", std::is_same_v<decltype(ec::sys_days{} - ec::sys_days{}), ec::days>, std::is_same_v<decltype(sc::sys_days{} - sc::sys_days{}), sc::days>);
+    std::uint64_t n = 0;
+    for (int d = -15000; d <= 25000; d += (c.tier == vf::Tier::thorough ? 97 : 997)) {
+        for (int k = -40; k <= 40; k += 3) {
+            ec::sys_days const ed{ec::days{d}};
+            sc::sys_days const sd{sc::days{d}};
+            char const* sit = k < 0 ? "days-neg" : (k == 0 ? "days-zero" : "days-pos");
+            vf::crumb(subj, "sys_days+days", sit, "d=%d k=%d", d, k);
+            vf::eq_int("day-number", day_number(ed + ec::days{k}), day_number(sd + sc::days{k}));
+            vf::crumb(subj, "days+sys_days", sit, "d=%d k=%d", d, k);
+            vf::eq_int("day-number", day_number(ec::days{k} + ed), day_number(sc::days{k} + sd));
+            vf::crumb(subj, "sys_days-days", sit, "d=%d k=%d", d, k);
+            vf::eq_int("day-number", day_number(ed - ec::days{k}), day_number(sd - sc::days{k}));
+            vf::crumb(subj, "sys_days-sys_days", sit, "d=%d k=%d", d, k);
+            vf::eq_int("days", day_number(ed - ec::sys_days{ec::days{k}}), day_number(sd - sc::sys_days{sc::days{k}}));
+            // the calendar round trip through the sum: year_month_day{sys_days + days}
+            vf::crumb(subj, "year_month_day{sys_days+days}", sit, "d=%d k=%d", d, k);
+            sc::year_month_day const sy{sd + sc::days{k}};
+            civil_of(ed + ec::days{k}, sy);
+            ++n;
+        }
+    }
+    vf::cover_bulk("sys_days (op) days", 5 * n, 4242, n);
+}
+
 using CaseFn = void (*)(vf::Case&);
 template <typename F> void add_row(std::vector<CaseFn>& v)
 {
@@ -131,6 +273,13 @@ template <typename F> void add_row(std::vector<CaseFn>& v)
     v.push_back(&pair_case<F, D4>);
     v.push_back(&pair_case<F, D5>);
     v.push_back(&pair_case<F, D6>);
+    v.push_back(&arith_case<F, D0>);
+    v.push_back(&arith_case<F, D1>);
+    v.push_back(&arith_case<F, D2>);
+    v.push_back(&arith_case<F, D3>);
+    v.push_back(&arith_case<F, D4>);
+    v.push_back(&arith_case<F, D5>);
+    v.push_back(&arith_case<F, D6>);
 }
 std::vector<CaseFn> const& table()
 {
@@ -143,6 +292,7 @@ std::vector<CaseFn> const& table()
         add_row<D4>(r);
         add_row<D5>(r);
         add_row<D6>(r);
+        r.push_back(&sys_days_case);
         return r;
     }();
     return v;
